@@ -1,10 +1,22 @@
 """C16 - static routes never leave their directory and serve exactly the requested bytes / ranges."""
 PROP = 'C16'
-LEAN_MODULES = ['FalconModel.Static']
+LEAN_MODULES = ['FalconModel.Static', 'FalconModel.StaticPathProofs', 'FalconModel.StaticResp', 'FalconModel.StaticRespProofs']
 DRIVERS = ['stdriver']
 THEOREMS = [
     'St.resolve_contained', 'St.serve_contained', 'St.rejected_opens_nothing',
     'St.range_closed', 'St.range_open', 'St.range_suffix', 'St.range_wellformed',
+    # the native normpath (StaticPathProofs.lean)
+    'St.splitOn_no_sep', 'St.splitOn_append', 'St.splitOn_joinSlash', 'St.normpath_no_dotdot_inside', 'St.normpath_abs',
+    'St.prefix_check_suffices', 'St.serve_lexically_inside',
+    # _BoundedFile / streams (StaticRespProofs.lean)
+    'Sr.bounded_read_spec', 'Sr.bounded_file_never_exceeds_length', 'Sr.bounded_read_empty_iff', 'Sr.drain_eq_window',
+    # _set_range with its stream, and the response side of __call__
+    'Sr.setRange_proj', 'Sr.setRange_window', 'Sr.setRange_unsat_iff', 'Sr.range_slice_exact', 'Sr.range_closed_response', 'Sr.range_open_response',
+    'Sr.range_suffix_response', 'Sr.unsatisfiable_is_416_with_size', 'Sr.no_range_is_200_whole', 'Sr.other_unit_ignored', 'Sr.size_zero_ignores_range',
+    'Sr.not_modified_is_304_without_body', 'Sr.not_modified_only_if', 'Sr.ims_bad_is_400', 'Sr.served_status',
+    # match and the files __call__ opens
+    'Sr.mkRoute_pfx_slash', 'Sr.matches_iff', 'Sr.matches_no_fallback', 'Sr.suffix_of_bare_match', 'Sr.findRoute_spec', 'Sr.findRoute_none',
+    'Sr.only_fallback_outside', 'Sr.served_from_last_open', 'Sr.call_contained', 'Sr.bare_prefix_opens', 'Sr.options_opens_nothing',
 ]
 STATEMENTS = {
     'St.resolve_contained': 'for an ARBITRARY normpath result n: if the tail of StaticRoute.__call__ accepts, the path opened is dir + "/" + n (or dir + n when dir ends with a slash) and contains no ".." anywhere - containment does not depend on normpath being right',
@@ -14,11 +26,43 @@ STATEMENTS = {
     'St.range_open': 'bytes=first- on size > 0: unsatisfiable iff first >= size, else first..size-1 with length size-first',
     'St.range_suffix': 'bytes=-n (n > 0) on size > 0: the last min(n, size) bytes',
     'St.range_wellformed': 'every 206 slice satisfies first <= last < size and Content-Length = last - first + 1',
+    'St.normpath_no_dotdot_inside': 'for every relative path p (not starting with "/"): normpath(p) is "." or its components are a leading run of ".." followed only by real names (never "", "." or "..") - ".." never occurs inside',
+    'St.normpath_abs': 'normpath of a path starting with "/" starts with "/" (so the disallowed normalised prefix "/" rejects every absolute suffix)',
+    'St.prefix_check_suffices': 'for a relative suffix whose normal form neither starts with "../" nor is exactly "..", the normal form is "." or consists of real names only: the two disallowed normalised prefixes alone give containment, except for the bare ".." (reached by e.g. "../"), which only the final \'..\' in file_path test turns into a 404',
+    'St.serve_lexically_inside': 'for EVERY suffix s, with the native normpath (no assumption about normpath left): if a path fp is handed to io.open then s is relative, n = normpath(s) is relative and is "." or has only real-name components (no "", ".", ".."), and the components of fp are those of the directory followed by those of n',
+    'St.splitOn_joinSlash': '"/".join(l).split("/") = l for a non-empty list of slash-free components (ties the component view to the string normpath returns)',
+    'Sr.bounded_read_spec': 'one _BoundedFile.read(size): the bytes returned followed by the new window are the old window; remaining decreases by exactly len(data); for size >= 0 at most size bytes are returned',
+    'Sr.bounded_file_never_exceeds_length': 'for ANY sequence of read(size) calls (None, negative, 0, positive, larger than what is left): the concatenation of all returned bytes followed by what is still readable equals file[pos : pos+length]; hence it is a prefix of that slice, its total length is <= length, and remaining + total = length',
+    'Sr.bounded_read_empty_iff': 'a read with size != 0 returns b"" iff the window is exhausted (so the servers\' read-until-empty loop stops exactly at the end of the slice)',
+    'Sr.drain_eq_window': 'reading block > 0 bytes at a time until an empty read yields exactly the window: file[pos : pos+length] for a _BoundedFile, the rest of the file for the raw handle',
+    'Sr.setRange_proj': 'status / Content-Range / Content-Length of the full _set_range model (with streams) are exactly St.setRange, so range_closed / range_open / range_suffix / range_wellformed apply to it',
+    'Sr.setRange_window': 'for every (start, end) of the shape falcon.Request.range produces: the 206 stream is _BoundedFile(fh seeked to first, last-first+1) and what can be read from it is file[first .. last]',
+    'Sr.range_slice_exact': 'size > 0, satisfiable: for every Range header value with unit "bytes" that falcon reads as (a, b) (shape by Hp.range_ok_shape), if the arithmetic gives first-last then the response is 206, Content-Range bytes first-last/size, Content-Length last-first+1 = len(body), and draining the stream with any block size yields exactly file[first .. last]',
+    'Sr.range_closed_response': 'header text "bytes=a-b" (a <= b, a < size), end to end: 206, a .. min(b, size-1), body = file[a .. min(b, size-1)]',
+    'Sr.range_open_response': 'header text "bytes=a-" (a < size): 206, a .. size-1, body = file[a:]',
+    'Sr.range_suffix_response': 'header text "bytes=-n" (n > 0, size > 0): 206, the last min(n, size) bytes',
+    'Sr.unsatisfiable_is_416_with_size': 'size > 0, unit bytes, reading (a, b): the outcome is HTTPRangeNotSatisfiable(size) (416, Content-Range bytes */size) iff a >= size, and a 416 never carries another size',
+    'Sr.other_unit_ignored': 'a Range header whose unit is not exactly "bytes" gives the same response as no Range header',
+    'Sr.no_range_is_200_whole': 'without a usable Range: 200, Content-Length size, no Content-Range, the raw file handle, whose drain is the complete content',
+    'Sr.size_zero_ignores_range': 'KNOWN FINDING F14, exactly: on a zero-length file every syntactically valid Range header (including int-ranges RFC 9110 calls unsatisfiable) is ignored: 200, Content-Length 0, no Content-Range, empty body, never 416',
+    'Sr.not_modified_is_304_without_body': 'If-Modified-Since >= Last-Modified (whole seconds) gives 304 with only Last-Modified set - no stream, no Content-Length / Content-Range - and this test precedes the Range handling: the outcome is the same for an absent, satisfiable, unsatisfiable or malformed Range header',
+    'Sr.not_modified_only_if': 'a 304 is produced only by that test',
+    'Sr.ims_bad_is_400': 'a malformed If-Modified-Since is a 400 (raised by req.if_modified_since) before Range is looked at',
+    'Sr.served_status': 'a served response has status 206 iff Content-Range is set, else 200; Last-Modified is the file\'s; downloadable_as is basename(opened path) iff the route is downloadable',
+    'Sr.matches_iff': 'match(path) iff path extends the prefix (which always ends with "/": whole segments only) or - only for a route with a fallback file - path is the prefix without its trailing slash',
+    'Sr.only_fallback_outside': '__call__ opens nothing, or the resolved path St.serve computes, or that path followed - only when a fallback is configured and only after opening the first failed - by the fallback file; nothing else, never more than two',
+    'Sr.served_from_last_open': 'a 200 / 206 is the response computed from the file opened last (the requested file, or the fallback when the former could not be opened)',
+    'Sr.call_contained': 'end to end: every path __call__ hands to io.open is the configured fallback or lies lexically inside the directory (components of the directory followed by real names only, or by the single ".")',
+    'Sr.bare_prefix_opens': 'a request for the bare prefix can only open directory + "/." (which io.open refuses) and then the fallback',
+    'Sr.options_opens_nothing': 'OPTIONS answers Allow: GET without touching a file',
 }
 TRUSTED = [
     'the operating system: io.open(path) opens the file that path names; a path that starts with dir + "/" and contains no ".." (and no symlink) names a file below dir',
     'sys.addaudithook reports every open() performed while a request is handled',
-    'falcon.Request.range: the (first, last) tuple the Range parser hands to _set_range (first-last -> (first,last); first- -> (first,-1); -n -> (-n,-1)); the correspondence compares the complete responses, so a wrong tuple shows up as a mismatch',
+    'falcon.Request.range / range_unit: modelled by Hp.range / Hp.rangeUnit (HeaderParsers.lean, tied to falcon.Request by C09); here the raw Range header value goes to the model and the complete responses are compared, so a wrong reading shows up as a mismatch',
+    'falcon.Request.if_modified_since (HTTP-date parser) and datetime.fromtimestamp(st_mtime): their values are read off the real objects and given to the model (absent / seconds / malformed)',
+    'io.BufferedReader on a regular file: read(n) returns min(n, bytes left) bytes, seek / tell as documented; fstat().st_size is the number of bytes in the file',
+    'the framework around the route: falcon.App turns HTTPNotFound / HTTPInvalidHeader / HTTPRangeNotSatisfiable into 404 / 400 / 416 responses and resp.set_stream / content_range / downloadable_as / last_modified into headers (compared on the wire); Content-Type selection is not modelled',
 ]
 ASSUMPTIONS = [
     'directory trees of regular files and subdirectories, no symlinks (as in the property statement); POSIX path semantics (os.path is posixpath)',
@@ -31,15 +75,22 @@ RULE = ('scratch tree (16 files of sizes 0..9 in 3 directory levels, names with 
         'characters, NUL, over-long names, overlong-UTF-8 and unicode look-alike dots and slashes, absolute paths to the secrets) or a mutation of an existing name, through full WSGI and ASGI apps '
         'with 5 static routes (plain, downloadable, fallback inside, fallback outside, nested prefix); every open() during the request is recorded by an audit hook. '
         'Ranges: every first-last / first- / -suffix with bounds 0..11, other units and malformed values x every file size 0..9 x both stacks, exhaustively in every run; '
-        'If-Modified-Since at mtime-2 .. mtime+2 (mtime with and without a fractional part). non-trivial = the route opened a file; distinct = distinct (stack, route, request bytes, headers)')
+        'If-Modified-Since at mtime-2 .. mtime+2 (mtime with and without a fractional part) x no / satisfiable / unsatisfiable / malformed Range; OPTIONS. '
+        'Directly on the real objects: StaticRoute.match for random prefixes (with / without trailing slash, fallback or not) x paths around them; _BoundedFile on real file handles at random positions with '
+        'random windows (also longer than the file) and random sequences of read(None | <0 | 0 | small | 8192); _set_range for every request-range shape x size 0..9. '
+        'non-trivial = the route opened a file / a read returned bytes; distinct = distinct (stack, route, request bytes, headers) or (data, pos, length, sizes)')
 PARTIAL = ''
 JOBS = {'quick': 4, 'thorough': 16}
 
 LEVEL_TEXT = ('Machine-checked proofs (Lean 4): for every request-path suffix the path handed to io.open by StaticRoute.__call__ is directory + "/" + normpath(suffix) with no ".." anywhere '
-              '(serve_contained; resolve_contained holds for an arbitrary normpath), rejected suffixes open nothing, and _set_range computes the RFC 9110 slice for every size > 0 '
-              '(range_closed / range_open / range_suffix / range_wellformed). The model (six textual tests, POSIX normpath, join, final check, _set_range) is tied to falcon/routing/static.py '
-              'on every run: the same suffixes go through full WSGI and ASGI apps on a real scratch tree and to the compiled model, comparing the first path opened (audit hook) or the 404, and every '
-              'Range form x file size 0..9 compares the complete response. An independent oracle judges containment by realpath of every opened file, exact bodies / slices, 206 / 416 / 304 headers.')
+              '(serve_contained; resolve_contained holds for an arbitrary normpath) and, for the native POSIX normpath, consists of the directory followed by real names only (normpath_no_dotdot_inside, '
+              'serve_lexically_inside, call_contained: no assumption about normpath is left); the only other file ever opened is the fallback (only_fallback_outside); match is prefix matching on whole '
+              'segments plus the bare prefix for fallback routes (matches_iff); rejected suffixes open nothing. Response side, for every file content, Range header value, If-Modified-Since reading: '
+              'the 206 body is exactly file[first..last] with matching Content-Range / Content-Length for every block size the server reads with (range_slice_exact, range_*_response), 416 carries the size, '
+              'other units are ignored, size 0 ignores Range (F14 stated exactly), not-modified is 304 without body and precedes Range; _BoundedFile never exceeds its length over any history of reads. '
+              'The model is tied to falcon/routing/static.py on every run: the same requests go through full WSGI and ASGI apps on a real scratch tree and to the compiled model, comparing the paths '
+              'opened (audit hook), status, Last-Modified, Content-Length, Content-Range, Content-Disposition name and body bytes; match, _BoundedFile (bytes of every read) and _set_range (stream kind, '
+              'position, window) are also compared directly on the real objects. An independent oracle judges containment by realpath of every opened file, exact bodies / slices, 206 / 416 / 304 headers.')
 LEVEL_NOTE = ('Trusted: Lean kernel + standard axioms; correspondence harness and oracle; the OS path resolution and the audit hook; falcon.Request.range tuple convention. '
               'Symlinks excluded by the property. F14 (size 0 ignores Range) is a listed known finding.')
 TECHNIQUE = 'Lean 4 proofs (path containment for all strings; range arithmetic) + differential correspondence vs. real static routes on a scratch tree with open() auditing + statement oracle'
@@ -132,13 +183,23 @@ def _run(ctx, root):
     }
     seen_path = {}
 
+    def ims_reading(req):
+        """what req.if_modified_since yields: absent | seconds since the epoch | bad (HTTPInvalidHeader)"""
+        try:
+            v = req.if_modified_since
+        except falcon.HTTPInvalidHeader:
+            return 'bad'
+        return 'absent' if v is None else str(int(v.timestamp()))
+
     class Cap:
         def process_request(self, req, resp):
             seen_path['p'] = req.path
+            seen_path['ims'] = ims_reading(req)
 
     class CapA:
         async def process_request(self, req, resp):
             seen_path['p'] = req.path
+            seen_path['ims'] = ims_reading(req)
 
     def build(cls, mw):
         app = cls(middleware=[mw])
@@ -152,6 +213,8 @@ def _run(ctx, root):
     aapp = build(falcon.asgi.App, CapA())
     drv = AsgiDriver()
     infra = tuple(p for p in {os.path.realpath(os.environ.get('FALCON_REPO', '/repo')), sys.prefix, sys.base_prefix, '/usr/lib/python', '/usr/local/lib/python'} if p)
+
+    last = {}
 
     def request(stack, path_bytes, headers=None, method='GET'):
         """-> (status, headers dict lower-case (last wins) , header list, body, opened paths, req.path seen by the app or None, error)"""
@@ -170,6 +233,7 @@ def _run(ctx, root):
         finally:
             _STATE['on'] = False
         opened = [p for p in _STATE['opened'] if not (p.endswith(('.py', '.pyc')) or p.startswith(infra))]
+        last['ims'] = seen_path.get('ims', 'absent')
         return st, {k.lower(): v for k, v in hl}, hl, body, opened, seen_path.get('p'), err
 
     def inside(p, directory):
@@ -190,6 +254,86 @@ def _run(ctx, root):
 
     def unroot(b):
         return b.replace(root.encode(), b'$ROOT').replace(root.encode().replace(b'/', b'%2f'), b'$ROOT(%2f-encoded)')
+
+    # ---- the model's view of the file system and of a response (correspondence 'whole response = Sr.call model')
+    from datetime import datetime, timezone
+    from falcon.routing.static import StaticRoute, _BoundedFile, _set_range
+    fs_cache = {'lines': None}
+
+    def fs_dirty():
+        fs_cache['lines'] = None
+
+    def fs_lines():
+        """every regular file below the scratch root: path, bytes, Last-Modified seconds as __call__ computes them"""
+        if fs_cache['lines'] is None:
+            out = []
+            for dp, dn, fn in sorted(os.walk(root)):
+                for n in sorted(fn):
+                    fp_ = os.path.join(dp, n)
+                    with open(fp_, 'rb') as f:
+                        data_ = f.read()
+                    lm_ = int(datetime.fromtimestamp(os.stat(fp_).st_mtime, timezone.utc).replace(microsecond=0).timestamp())
+                    out.append(f'file {H(fp_)} {hx(data_)} {lm_}')
+            fs_cache['lines'] = out
+        return fs_cache['lines']
+
+    def dl_name(hd):
+        cd = hd.get('content-disposition')
+        if cd is None:
+            return 'none'
+        m = re.fullmatch(r'attachment; filename="(.*)"', cd)
+        if m:
+            return H(m.group(1))
+        m = re.fullmatch(r"attachment; filename=[^;]*; filename\*=UTF-8''(.*)", cd)
+        return H(urllib.parse.unquote(m.group(1))) if m else '?' + cd.replace(' ', '_')
+
+    def out_rep(method, st, hd, body):
+        """the real response in the reply format of the driver's `call` op"""
+        lmh = hd.get('last-modified')
+        try:
+            lm_ = 'none' if lmh is None else str(int(email.utils.parsedate_to_datetime(lmh).timestamp()))
+        except (TypeError, ValueError):
+            lm_ = '?'
+        cl_ = hd.get('content-length', 'none'); cr_ = hd.get('content-range')
+        if st == 404:
+            return '404'
+        if st == 400:
+            return f'400 {lm_}'
+        if st == 304:
+            extra = [k for k in ('content-length', 'content-range', 'accept-ranges', 'content-disposition') if k in hd]
+            return f'304 {lm_}' + (f' body={hx(body)}' if body else '') + (f' extra={",".join(extra)}' if extra else '')
+        if st == 416:
+            m = re.fullmatch(r'bytes \*/(\d+)', cr_ or '')
+            return f'416 {lm_} {m.group(1)}' if m else f'416 {lm_} ?{cr_}'
+        if method == 'OPTIONS' and st == 200 and hd.get('allow') == 'GET' and cl_ == '0' and not body and lmh is None:
+            return 'options'
+        if st in (200, 206):
+            if cr_ is None:
+                crs = '-'
+            else:
+                m = re.fullmatch(r'bytes (\d+)-(\d+)/(\d+)', cr_)
+                crs = f'{m.group(1)}-{m.group(2)}/{m.group(3)}' if m else '?' + cr_.replace(' ', '_')
+            return f'{st} {lm_} {cl_} {crs} {hx(body)} dl={dl_name(hd)}' + ('' if hd.get('accept-ranges') == 'bytes' else ' no-accept-ranges')
+        return f'status {st}'
+
+    csess = ctx.session('whole response = Sr.call model', 'stdriver')
+
+    def call_ops(meta, method, prefix, seenp, range_value, st, hd, body, opened):
+        directory, dl, fb = ROUTES[prefix]
+        csess.case(meta)
+        csess.op('fsreset', 'ok')
+        for ln in fs_lines():
+            csess.op(ln, 'ok')
+        rv = 'absent' if range_value is None else H(range_value)
+        csess.op(f'call {1 if method == "OPTIONS" else 0} {H(prefix)} {H(directory)} {1 if dl else 0} {H(fb) if fb else "none"} {H(seenp)} {last["ims"]} {rv}',
+                 'opens=' + ','.join(H(p) for p in opened) + ' ' + out_rep(method, st, hd, body))
+
+    # the five routes as StaticRoute objects, in the order app._static_routes keeps them (most recently added first)
+    LIFO = [('/s/nested/x', os.path.join(served, 'sub'), None), ('/g', served, fb_out), ('/f', served, 'index.html'), ('/d', served, None), ('/s', served, None)]
+    SRS = [StaticRoute(pf, d_, fallback_filename=fb_) for pf, d_, fb_ in LIFO]
+    ROUTE_ARGS = ' '.join(f'{H(pf)}:{1 if fb_ else 0}' for pf, d_, fb_ in LIFO)
+    msess = ctx.session('route matching = Sr.matches / findRoute model', 'stdriver')
+    ORA_MATCH = 'match: a route answers exactly the paths below its prefix (whole segments) and, with a fallback file, the bare prefix'
 
     sess = ctx.session('static path resolution = St.serve model', 'stdriver')
     ORA_CONT = 'containment: every file opened is inside the served directory or is the configured fallback'
@@ -291,11 +435,21 @@ def _run(ctx, root):
         case = {'stack': stack, 'request_target': unroot(raw), 'decoded_path': unroot(path_bytes), 'route': matched}   # $ROOT = the scratch directory of this run
         judge_paths(stack, raw, st, hd, body, opened, matched, err, case)
         ctx.count('path_' + kind); ctx.count('path_status_' + str(st))
+        if seenp is not None:
+            # which of the five routes answers: the real match() of each route in app order vs. Sr.findRouteIdx
+            idx = next((i for i, sr in enumerate(SRS) if sr.match(seenp)), None)
+            msess.case({'stack': stack, 'request_target': unroot(raw)})
+            msess.op(f'route {H(seenp)} {ROUTE_ARGS}', 'none' if idx is None else str(idx))
+            want_idx = None if matched is None else ['/s/nested/x/', '/g/', '/f/', '/d/', '/s/'].index(matched)
+            ctx.oracle(ORA_MATCH, idx == want_idx, None if idx == want_idx else f'route #{idx} matched, the documented LIFO prefix rule says #{want_idx}', case)
         if matched is not None and seenp is not None:
             directory, dl, fb = ROUTES[matched]
             sfx = seenp[len(matched):]
             sess.case({'stack': stack, 'route': matched, 'request_target': unroot(raw)})
             sess.op(f'serve {1 if fb else 0} {H(directory)} {H(sfx)}', ('open ' + H(opened[0])) if opened else 'reject')
+            sess.op(f'norm {H(sfx)}', 'path ' + H(os.path.normpath(sfx)))
+            if not err and rnd.random() < (0.25 if opened else 0.02):
+                call_ops({'stack': stack, 'route': matched, 'request_target': unroot(raw)}, 'GET', matched, seenp, None, st, hd, body, opened)
             if opened and st == 200 and dl:
                 # Content-Disposition names the file actually served
                 cd = hd.get('content-disposition', '')
@@ -324,7 +478,19 @@ def _run(ctx, root):
                 ctx.oracle(ORA_POS, what is None, what, case)
                 sess.case({'stack': stack, 'route': prefix, 'request_target': raw})
                 sess.op(f'serve {1 if ROUTES[prefix][2] else 0} {H(served)} {H(rel)}', ('open ' + H(opened[0])) if opened else 'reject')
+                if not err and seenp is not None:
+                    call_ops({'stack': stack, 'route': prefix, 'request_target': raw}, 'GET', prefix, seenp, None, st, hd, body, opened)
                 ctx.seen((stack, raw, 'pos'), True)
+            # OPTIONS: Allow: GET, no file touched - also for names that do not exist or would be rejected
+            for rel in ('a.txt', 'missing', '../secret.txt'):
+                raw = prefix.encode() + rel.encode()
+                st, hd, hl, body, opened, seenp, err = request(stack, raw, method='OPTIONS')
+                case = {'stack': stack, 'request_target': raw, 'route': prefix, 'method': 'OPTIONS'}
+                what = None if (not err and not opened and not body) else f'OPTIONS opened {opened}, body {body!r}, {err}'
+                ctx.oracle(ORA_CONT, what is None, what, case)
+                if not err and seenp is not None:
+                    call_ops(case, 'OPTIONS', prefix, seenp, None, st, hd, body, opened)
+                ctx.seen((stack, raw, 'options'), False)
         # fallback: a missing file, a directory and the bare prefix are answered with the fallback file
         for prefix, fbp in (('/f/', fb_in), ('/g/', fb_out)):
             for sfx, expect_fb in ((b'missing.html', True), (b'', True), (b'sub/nope/none', True), (b'sub', True), (b'emptydir', True)):
@@ -339,8 +505,11 @@ def _run(ctx, root):
                         what = None if (st == 404 and not opened) else f'rejected name answered {st}, opened {opened}'
                     ctx.oracle(ORA_POS, what is None, what, case)
                     judge_paths(stack, raw, st, hd, body, opened, prefix, err, case)
+                    if not err and seenp is not None:
+                        call_ops(case, 'GET', prefix, seenp, None, st, hd, body, opened)
                     ctx.seen((stack, raw, 'fb'), True)
     sess.finish()
+    msess.finish()
 
     # ---------------------------------------------------------------- 3. ranges x sizes, exhaustively
     rsess = ctx.session('range responses = St.setRange model', 'stdriver')
@@ -373,6 +542,7 @@ def _run(ctx, root):
                 f.write(data)
             os.utime(fpath, (T0, T0))
             sizes_done.add(size)
+            fs_dirty()
         route = rnd.choice(['/s/', '/d/', '/f/'])
         if kind == 'std':
             if sp is None: hv = None
@@ -480,6 +650,9 @@ def _run(ctx, root):
             else:
                 rep = f'status {st}'
             rsess.case(case); rsess.op(f'range {size} {a} {b}', rep)
+        # the complete response for EVERY header value (also other units and malformed ones) vs. Sr.call: the raw header text goes to the model
+        if not err and seenp is not None:
+            call_ops(case, 'GET', route, seenp, hv, st, hd, body, opened)
         ctx.seen((stack, size, hv, 'range'), hv is not None)
     rsess.finish()
 
@@ -488,10 +661,11 @@ def _run(ctx, root):
     for mt in (T0, T0 + 0.5, T0 + 0.999):
         fpath = os.path.join(served, 'a.txt')
         os.utime(fpath, (mt, mt))
+        fs_dirty()
         lm = int(mt)
         for stack in ('wsgi', 'asgi'):
             for delta in (-86400, -2, -1, 0, 1, 2, 86400):
-                for rng in (None, 'bytes=2-4', 'bytes=50-'):
+                for rng in (None, 'bytes=2-4', 'bytes=50-', 'bytes=-3', 'items=0-1', 'bytes=4-2', 'junk'):
                     for route in ('/s/', '/d/'):
                         ims = email.utils.formatdate(lm + delta, usegmt=True)
                         headers = {'If-Modified-Since': ims}
@@ -509,13 +683,183 @@ def _run(ctx, root):
                             if st != 200 or body != data: what = f'modified: expected 200 + file, got {st} {body!r}'
                         elif rng == 'bytes=2-4':
                             if st != 206 or body != data[2:5] or hd.get('content-range') != f'bytes 2-4/{len(data)}': what = f'modified + range: got {st} {body!r} {hd.get("content-range")!r}'
+                        elif rng == 'bytes=-3':
+                            if st != 206 or body != data[-3:] or hd.get('content-range') != f'bytes {len(data) - 3}-{len(data) - 1}/{len(data)}': what = f'modified + suffix range: got {st} {body!r} {hd.get("content-range")!r}'
+                        elif rng == 'items=0-1':
+                            if st != 200 or body != data: what = f'modified + other range unit: expected 200 + file, got {st} {body!r}'
+                        elif rng in ('bytes=4-2', 'junk'):
+                            if st not in (400, 416) and not (st == 200 and body == data): what = f'modified + invalid Range {rng!r}: got {st} {body!r}'
                         else:
                             if st != 416 or hd.get('content-range') != f'bytes */{len(data)}': what = f'modified + unsatisfiable range: got {st} {hd.get("content-range")!r}'
+                        if delta >= 0 and rng in ('bytes=4-2', 'junk') and st == 400 and not err:
+                            what = None            # a malformed Range may be rejected before the conditional is evaluated; the statement does not order them
                         ctx.oracle(ORA_COND, what is None, what, case)
+                        if not err and seenp is not None:
+                            call_ops(case, 'GET', route, seenp, rng, st, hd, body, opened)
                         ctx.seen((stack, mt, ims, rng, route), True)
-            for bad in ('garbage', '', 'Thu, 32 Foo 2020 00:00:00 GMT'):
-                st, hd, hl, body, opened, seenp, err = request(stack, b'/s/a.txt', headers={'If-Modified-Since': bad})
-                what = None if (not err and (st == 400 or (st == 200 and body == FILES['a.txt']))) else f'invalid If-Modified-Since {bad!r}: {st} {err}'
-                ctx.oracle(ORA_COND, what is None, what, {'stack': stack, 'if_modified_since': bad})
+            for bad in ('garbage', '', 'Thu, 32 Foo 2020 00:00:00 GMT', 'Sunday, 06-Nov-94 08:49:37 GMT', 'Sun Nov  6 08:49:37 1994'):
+                for rng in (None, 'bytes=2-4', 'bytes=50-'):
+                    headers = {'If-Modified-Since': bad}
+                    if rng: headers['Range'] = rng
+                    st, hd, hl, body, opened, seenp, err = request(stack, b'/s/a.txt', headers=headers)
+                    ok_file = (st == 200 and body == FILES['a.txt']) if rng is None else ((st == 206 and body == FILES['a.txt'][2:5]) if rng == 'bytes=2-4' else st == 416)
+                    what = None if (not err and (st == 400 or st == 304 or ok_file)) else f'invalid If-Modified-Since {bad!r}: {st} {err}'
+                    ctx.oracle(ORA_COND, what is None, what, {'stack': stack, 'if_modified_since': bad, 'range': rng})
+                    if not err and seenp is not None:
+                        call_ops({'stack': stack, 'if_modified_since': bad, 'range': rng}, 'GET', '/s/', seenp, rng, st, hd, body, opened)
     os.utime(os.path.join(served, 'a.txt'), (T0, T0))
+    fs_dirty()
+    csess.finish()
+
+    # ---------------------------------------------------------------- 5. match(), directly on StaticRoute objects
+    dsess = ctx.session('match / _BoundedFile / _set_range on the real objects = Sr model', 'stdriver')
+    SEG = ['a', 'b', 'ab', 'A', 'static', 'x y', 'é', '.', '..', 'a.b', '']
+    for ci in range(ctx.n(1500, 30000)):
+        pf = '/' + '/'.join(rnd.choice(SEG) for _ in range(rnd.randint(0, 3)))
+        if rnd.random() < 0.3: pf += '/'
+        has_fb = rnd.random() < 0.5
+        npf = pf if pf.endswith('/') else pf + '/'
+        r = rnd.randrange(9)
+        if r == 0: path = pf
+        elif r == 1: path = npf
+        elif r == 2: path = npf[:-1]
+        elif r == 3: path = npf + rnd.choice(SEG) + rnd.choice(['', '/', '/x'])
+        elif r == 4: path = npf[:-1] + rnd.choice(['x', '.', ' ', '//', '/.', '%2f'])
+        elif r == 5: path = npf[:rnd.randint(0, len(npf))]
+        elif r == 6: path = npf.swapcase() + 'a'
+        elif r == 7: path = npf[:-1][:-1]
+        else: path = '/' + '/'.join(rnd.choice(SEG) for _ in range(rnd.randint(0, 4)))
+        sr = StaticRoute(pf, served, fallback_filename=fb_out if has_fb else None)
+        got = bool(sr.match(path))
+        case = {'prefix': pf, 'fallback': has_fb, 'path': path}
+        want = path.startswith(npf) or (has_fb and path + '/' == npf)
+        ctx.oracle(ORA_MATCH, got == want, None if got == want else f'match({path!r}) = {got} for prefix {pf!r}' + (' with' if has_fb else ' without') + ' fallback', case)
+        dsess.case(case)
+        dsess.op(f'match {H(pf)} {1 if has_fb else 0} {H(path)}', 'true' if got else 'false')
+        ctx.seen(('match', pf, has_fb, path), got)
+        ctx.count('match_' + str(got))
+
+    # ---------------------------------------------------------------- 6. _BoundedFile on real file handles: the bytes of every read
+    ORA_BF = '_BoundedFile: the reads concatenate to a prefix of file[pos:pos+length], never more than length bytes, never more than asked for'
+    scratch = os.path.join(root, 'bf')
+    os.makedirs(scratch)
+    SIZES = [None, -1, -7, 0, 0, 1, 1, 2, 3, 5, 8, 100, 8192, 'noarg']
+    for ci in range(ctx.n(1500, 40000)):
+        n = rnd.choice([0, 1, 2, 3, 5, 8, 13, 21, 40])
+        data = bytes(rnd.randrange(256) for _ in range(n))
+        fp_ = os.path.join(scratch, f'f{ctx.shard[0]}')
+        with open(fp_, 'wb') as f:
+            f.write(data)
+        pos = rnd.randint(0, n + 2)
+        length = rnd.choice([0, 1, 2, 3, n, max(0, n - pos), n + 3, rnd.randint(0, n + 1)])
+        sizes = [rnd.choice(SIZES) for _ in range(rnd.randint(1, 8))]
+        fh = open(fp_, 'rb')
+        fh.seek(pos)
+        bf = _BoundedFile(fh, length)
+        outs = []
+        raised = None
+        for sz in sizes:
+            try:
+                outs.append(bf.read() if sz == 'noarg' else bf.read(sz))
+            except Exception as e:  # noqa
+                raised = f'read({sz}) raised {type(e).__name__}: {e}'
+                break
+        rem = bf.remaining
+        bf.close()
+        closed = fh.closed
+        if not closed: fh.close()
+        window = data[pos:pos + length]
+        cat = b''
+        what = None
+        for sz, o in zip(sizes, outs):
+            cat += o
+            if not isinstance(o, bytes): what = f'read({sz}) returned {type(o).__name__}'
+            elif isinstance(sz, int) and sz >= 0 and len(o) > sz: what = f'read({sz}) returned {len(o)} bytes'
+            elif not window.startswith(cat): what = f'after read({sz}) the bytes handed out {cat!r} are not a prefix of file[{pos}:{pos + length}] = {window!r}'
+            elif (sz is None or sz == 'noarg' or (isinstance(sz, int) and sz < 0)) and cat != window: what = f'read({sz}) did not deliver the rest of the window: {cat!r} != {window!r}'
+            if what: break
+        if what is None and raised: what = raised
+        if what is None and len(cat) > length: what = f'{len(cat)} bytes handed out of a {length}-byte window'
+        if what is None and not closed: what = 'close() did not close the underlying file'
+        case = {'data': data, 'pos': pos, 'length': length, 'read_sizes': [str(x) for x in sizes]}
+        ctx.oracle(ORA_BF, what is None, what, case)
+        dsess.case(case)
+        dsess.op(f'bfile {hx(data)} {pos} {length} ' + ','.join('N' if x is None else ('-1' if x == 'noarg' else str(x)) for x in sizes),
+                 ' '.join('r ' + hx(o) for o in outs) + (f' rem {rem}' if not raised else ' ' + raised.replace(' ', '_')))
+        ctx.seen(('bf', data, pos, length, tuple(map(str, sizes))), bool(cat))
+        ctx.count('bf_bytes_' + ('0' if not cat else ('window' if cat == window else 'part')))
+
+    # ---------------------------------------------------------------- 7. _set_range directly: stream kind, position, window, length, Content-Range
+    ORA_SR = '_set_range: the stream delivers exactly the bytes Content-Range names, length is their number'
+    tuples = [None]
+    for a in range(0, 12):
+        tuples.append((a, -1)); tuples.append((-a - 1, -1))
+        for b in range(a, 12):
+            tuples.append((a, b))
+    tuples += [(0, 10 ** 12), (10 ** 12, -1), (-10 ** 12, -1), (3, 2 ** 63), (2 ** 70, 2 ** 70)]
+    jn = 0
+    for size in range(0, 10):
+        data = bytes(range(97, 97 + size))
+        fp_ = os.path.join(scratch, f's{ctx.shard[0]}_{size}')
+        with open(fp_, 'wb') as f:
+            f.write(data)
+        for t in tuples:
+            jn += 1
+            if jn % k_shard != i_shard:
+                continue
+            fh = open(fp_, 'rb')
+            st_ = os.fstat(fh.fileno())
+            what = None
+            try:
+                stream, length, cr = _set_range(fh, st_, t)
+            except Exception as e:  # noqa
+                if not isinstance(e, falcon.HTTPRangeNotSatisfiable):
+                    rep = f'raised {type(e).__name__}'; what = f'_set_range({t}) on {size} bytes raised {type(e).__name__}: {e}'
+                    if not fh.closed: fh.close()
+                    case = {'size': size, 'req_range': None if t is None else [str(t[0]), str(t[1])]}
+                    ctx.oracle(ORA_SR, False, what, case)
+                    dsess.case(case); dsess.op(f'setrange {hx(data)} ' + ('none' if t is None else f'{t[0]} {t[1]}'), rep)
+                    continue
+                crh = dict(e.headers or {}).get('Content-Range', '')
+                m = re.fullmatch(r'bytes \*/(\d+)', crh)
+                rep = (f'unsat {m.group(1)}' if m else f'unsat ?{crh}') + ('' if fh.closed else ' not-closed')
+                if size > 0 and not (t is not None and t[0] >= size): what = f'416 for a satisfiable range {t} of a {size}-byte file'
+                elif crh != f'bytes */{size}': what = f'416 with Content-Range {crh!r}'
+            else:
+                posn = fh.tell()
+                if stream is fh:
+                    rep = f'raw {posn} {length} ' + ('-' if cr is None else f'{cr[0]}-{cr[1]}/{cr[2]}')
+                elif isinstance(stream, _BoundedFile):
+                    rep = f'bounded {posn} {stream.remaining} {length} ' + ('-' if cr is None else f'{cr[0]}-{cr[1]}/{cr[2]}')
+                else:
+                    rep = f'stream {type(stream).__name__}'
+                got = b''
+                try:
+                    while True:
+                        chunk = stream.read(4)
+                        if not chunk: break
+                        got += chunk
+                        if len(got) > size + 8: break
+                except Exception as e:  # noqa
+                    got = f'<read raised {type(e).__name__}>'.encode()
+                if cr is None:
+                    if got != data or length != size: what = f'no Content-Range but stream {got!r}, length {length} for file {data!r}'
+                    elif t is not None and size > 0: what = f'range {t} ignored on a {size}-byte file'
+                else:
+                    a_, b_, s_ = cr
+                    if s_ != size or not (0 <= a_ <= b_ < size): what = f'Content-Range {cr} outside a {size}-byte file'
+                    elif got != data[a_:b_ + 1]: what = f'stream {got!r} != file[{a_}:{b_ + 1}] = {data[a_:b_ + 1]!r}'
+                    elif length != b_ - a_ + 1: what = f'length {length} != {b_ - a_ + 1}'
+                    else:
+                        if t[1] == -1 and t[0] < 0: exp = (size - min(-t[0], size), size - 1)
+                        elif t[1] == -1: exp = (t[0], size - 1)
+                        else: exp = (t[0], min(t[1], size - 1))
+                        if (a_, b_) != exp: what = f'range {t} on {size} bytes served as {a_}-{b_}, RFC 9110 says {exp[0]}-{exp[1]}'
+                if not fh.closed: fh.close()
+            case = {'size': size, 'req_range': None if t is None else [str(t[0]), str(t[1])]}
+            ctx.oracle(ORA_SR, what is None, what, case)
+            dsess.case(case)
+            dsess.op(f'setrange {hx(data)} ' + ('none' if t is None else f'{t[0]} {t[1]}'), rep)
+            ctx.seen(('setrange', size, t), t is not None and size > 0)
+    dsess.finish()
     drv.close()
